@@ -54,7 +54,7 @@ def run_function(name):
             a['traces'].append([list(x) for x in o.trace][-40:])
     for nm, a in agg.items():
         if a['kind'] == 'smoke': ok = any(r == 'sat' for r in a['results'])
-        elif a['expect'] == 'sat': ok = all(r == 'sat' for r in a['results'])
+        elif a['expect'] == 'sat': ok = all(r != 'unsat' for r in a['results'])   # vacuity = the precondition is refuted
         else: ok = all(r == 'unsat' for r in a['results'])
         a['results'] = [r for r in a['results'] if r != 'skipped'] or ['skipped']
         st = 'discharged' if ok else ('refuted' if any(r == 'sat' for r in a['results']) and a['expect'] == 'unsat' else 'undischarged')
@@ -94,12 +94,16 @@ def main():
     if tier == 'thorough': opts['overflow'] = True
     _G.update(prog=prog, cs=cs, opts=opts)
     import multiprocessing as mp
+    from concurrent.futures import ProcessPoolExecutor, as_completed
     results = []
     if fns:
+        outer = max(1, min(len(fns), jobs // 4))
+        opts['inner_jobs'] = max(1, jobs // outer)
         ctx = mp.get_context('fork')
-        with ctx.Pool(min(jobs, len(fns))) as pool:
-            for r in pool.imap_unordered(run_function, fns, chunksize=1):
-                results.append(r)
+        with ProcessPoolExecutor(max_workers=outer, mp_context=ctx) as ex:
+            futs = [ex.submit(run_function, f) for f in fns]
+            for f in as_completed(futs):
+                results.append(f.result())
     results.sort(key=lambda r: r['fn'])
     lock = json.load(open(LOCK)) if os.path.exists(LOCK) else {}
     known = json.load(open(KNOWN)) if os.path.exists(KNOWN) else {'findings': [], 'fixed': []}
